@@ -1,7 +1,7 @@
 """Abstract layouts for revm / environment types used by the scheduler-level harnesses (each is an explicit
 abstraction listed in evidence): only the parts grevm's own code inspects are kept."""
 import models
-from translate import StructN, ScalarN, UnitN, EnumN, ArrN, TranslateError
+from translate import StructN, ScalarN, UnitN, EnumN, ArrN, TranslateError, Loc
 from rtypes import parse_type, Ty
 
 STRINGS = []
@@ -43,6 +43,16 @@ def t_invalid_tx(tr, ty, name, dims, storage, g=None):
     s = StructN(ty, name, dims, storage, "InvalidTransaction")
     s.fields.append(ScalarN(None, name + "_code", dims, storage, "unsigned char"))
     s.names.append("code")
+
+    def agg(tr_, inst, dst, rv):
+        # a variant written as a literal in grevm's own code: code 200 = NonceOverflowInTransaction, other unit variants get a stable code < 200
+        raw = rv.raw.strip().rstrip(";")
+        vname = raw.split("::")[-1].split("(")[0].split("{")[0].strip()
+        if rv.ops:
+            raise TranslateError(f"InvalidTransaction literal with payload is not modelled: {raw}")
+        code = 200 if vname == "NonceOverflowInTransaction" else 100 + (sum(ord(ch) for ch in vname) % 90)
+        tr_.emit(f"{tr_.lv(Loc(dst.node.fields[0], dst.idxs))} = {code};")
+    s.extra["agg"] = agg
     return s
 
 
